@@ -158,6 +158,23 @@ fn long_rear_case(j: u64) -> Case {
     Case { k, strings, order: 0, via_extend: j % 2 == 1, seed: j }
 }
 
+/// Consecutive strings sharing a very long prefix (2^16 .. 2^22 bytes) and differing only after it:
+/// ascending, with a single descent after the shared prefix, or followed by a proper prefix.
+fn long_lcp_case(j: u64) -> Case {
+    let lens = [1usize << 20, (1 << 20) + 1, (1 << 20) - 1, 1 << 16, (1 << 21) + 5, 1 << 22, (1 << 16) + 1, 1 << 18];
+    let plen = lens[j as usize % lens.len()];
+    let shape = (j / lens.len() as u64) % 4;
+    let k = [1usize, 2, 4, 3][(j / 3) as usize % 4];
+    let p: String = std::iter::repeat("ab").take(plen / 2).chain(std::iter::once(if plen % 2 == 1 { "a" } else { "" })).collect();
+    let strings: Vec<String> = match shape {
+        0 => vec![format!("{p}m"), format!("{p}c"), format!("{p}x")],          // one descent after the long prefix
+        1 => vec![format!("{p}c"), format!("{p}m"), format!("{p}x")],          // ascending
+        2 => vec![format!("{p}m"), p.clone(), format!("{p}x")],                // proper prefix after its extension
+        _ => vec!["a".into(), format!("{p}m"), format!("{p}mz"), format!("{p}c"), format!("{p}d")],
+    };
+    Case { k, strings, order: 3, via_extend: j % 2 == 1, seed: j }
+}
+
 /// The largest rear length actually encoded: previous length minus common
 /// prefix, over the strings that do not open a block.
 fn max_encoded_rear(v: &[String], k: usize) -> usize {
@@ -339,6 +356,7 @@ impl Property for C09 {
             Segment::random("big-lists", tier.pick(8_000, 240_000), &[1], 16, 6000),
             // rear lengths crossing the variable-byte boundaries 16512 and 2113664 (3- and 4-byte codes)
             Segment::enumerated("long-rear-lengths", tier.pick(16, 120), &[2]),
+            Segment::enumerated("long-common-prefixes", tier.pick(16, 32), &[3]),
         ]
     }
     fn watchdog_s(&self) -> u64 {
@@ -346,7 +364,7 @@ impl Property for C09 {
         900
     }
     fn rule(&self) -> &'static str {
-        "case = (block size k in {1,2,3,4,8,16,n-1,n,n+1,..20}, n strings without NUL built as prefix families over 6 alphabets (a/b, ASCII, 2/3/4-byte UTF-8, low code points) with lengths around 127..130 (thorough: a family with >=16512-byte suffixes), order in {sorted, reversed, sorted with duplicates, unsorted}, push or extend) decoded from bytes; oracle = the Vec<String>; observed len, get, get_in_place for every i, iter/into_iter/into_lender/lend, iter_from/lend_from/into_iter_from for every start 0..=n (sampled above 80) with len/size_hint before every next, index_of/contains for stored strings, prefixes, extensions, neighbours and strings between neighbours. Plus an enumerated segment of lists whose rear lengths sit at and inside the 3- and 4-byte variable-byte regimes (16512, 2113664 +-2, up to 6 MB strings; thorough: 270549120 +-2, the 5-byte regime, 270 MB strings). Every iterator is also driven through a generated script of next/nth/size_hint steps and one consuming adaptor (count, last, collect, step_by, skip, fold) in lock-step with the model's iterator. Non-trivial: n>=2 with a non-empty shared prefix between two consecutive strings, or labels n=0, n%k=0, rear>=128, dups, unsorted, multibyte; distinct = distinct hash of the decoded case."
+        "case = (block size k in {1,2,3,4,8,16,n-1,n,n+1,..20}, n strings without NUL built as prefix families over 6 alphabets (a/b, ASCII, 2/3/4-byte UTF-8, low code points) with lengths around 127..130 (thorough: a family with >=16512-byte suffixes), order in {sorted, reversed, sorted with duplicates, unsorted}, push or extend) decoded from bytes; oracle = the Vec<String>; observed len, get, get_in_place for every i, iter/into_iter/into_lender/lend, iter_from/lend_from/into_iter_from for every start 0..=n (sampled above 80) with len/size_hint before every next, index_of/contains for stored strings, prefixes, extensions, neighbours and strings between neighbours. Plus an enumerated segment of lists whose rear lengths sit at and inside the 3- and 4-byte variable-byte regimes (16512, 2113664 +-2, up to 6 MB strings; thorough: 270549120 +-2, the 5-byte regime, 270 MB strings). Plus an enumerated segment of 3..5-string lists whose consecutive strings share 2^16..2^22 bytes and differ after them (ascending, a single descent, a proper prefix after its extension). Every iterator is also driven through a generated script of next/nth/size_hint steps and one consuming adaptor (count, last, collect, step_by, skip, fold) in lock-step with the model's iterator. Non-trivial: n>=2 with a non-empty shared prefix between two consecutive strings, or labels n=0, n%k=0, rear>=128, dups, unsorted, multibyte; distinct = distinct hash of the decoded case."
     }
     fn run(&self, data: &[u8], cx: &mut Ctx) -> R {
         let (mode, rest) = data.split_first().unwrap_or((&0, &[]));
@@ -363,6 +381,17 @@ impl Property for C09 {
             if r < 16_000 {
                 return Err(Fail::mismatch("harness", format!("harness: long-rear case encodes no long rear length (k={}, max {r})", c.k)));
             }
+            cx.nontrivial();
+            return check(cx, &c);
+        }
+        if *mode == 3 {
+            let mut b = [0u8; 8];
+            b[..rest.len().min(8)].copy_from_slice(&rest[..rest.len().min(8)]);
+            let c = long_lcp_case(u64::from_le_bytes(b));
+            cx.hash(&("long-lcp", u64::from_le_bytes(b)));
+            cx.describe(|| format!("long common prefixes: k={} n={} string lengths {:?} tails {:?}", c.k, c.strings.len(), c.strings.iter().map(|s| s.len()).collect::<Vec<_>>(), c.strings.iter().map(|s| s[s.len().saturating_sub(2)..].to_string()).collect::<Vec<_>>()));
+            cx.label("lcp>=65536");
+            cx.label_if(c.strings.windows(2).any(|w| w[0] > w[1]), "unsorted");
             cx.nontrivial();
             return check(cx, &c);
         }
